@@ -887,6 +887,31 @@ def _h_majorizes(ctx, r, rng):
         got3 = ctx.call(majorizes, x.copy(), y.copy())
         if got3 is not FAILED:
             ctx.check("O2:majorizes", bool(got3) == bool((diff[:-1] > 0).all()), sig=("generic", n), nt=True, mech="majorizes:differs-from-partial-sums", detail={"x": x, "y": y})
+    # operands of different length (the shorter one is padded with zeros), vectors and matrices, with a clear margin at every partial sum
+    na, nb = int(rng.integers(1, 6)), int(rng.integers(1, 6))
+    if na == nb:
+        nb = na + 1 if r % 2 else max(1, na - 1) if na > 1 else na + 1
+    u, v = rng.random(na) + 0.1, rng.random(nb) + 0.1
+    if r % 3 == 0:  # equal totals, the longer operand spread out: decided in the zero-padded tail
+        v *= u.sum() / v.sum()
+    elif r % 3 == 1:  # the first operand is the shorter one and wins every partial sum it has entries for; the second overtakes it only in the padded tail
+        nb = na + 1 + int(rng.integers(0, 2))
+        v = np.full(nb, 0.9 * u.mean())
+    size = max(na, nb)
+    pu, pv = np.pad(np.sort(u)[::-1], (0, size - na)), np.pad(np.sort(v)[::-1], (0, size - nb))
+    d2 = np.cumsum(pu) - np.cumsum(pv)
+    d2[np.abs(d2) < 1e-12] = 0.0  # equal totals: the last partial sums agree
+    if np.abs(d2[d2 != 0]).min(initial=1.0) > 1e-3:
+        want5 = bool((d2 >= 0).all())
+        if r % 4 < 2:
+            args5 = (u.copy(), v.copy())
+        else:  # the same spectra as singular values of (rectangular) matrices
+            args5 = tuple(gen.haar(rng, len(w_))[:, :len(w_)] @ np.diag(w_) @ gen.haar(rng, len(w_) + int(rng.integers(0, 2)))[:len(w_), :] for w_ in (u, v))
+        got5 = ctx.call(majorizes, *args5)
+        if got5 is not FAILED:
+            first_bad = int(np.argmax(d2 < 0)) if not want5 else -1
+            ctx.check("O2:majorizes", bool(got5) == want5, sig=("unequal-lengths", na < nb, want5, first_bad >= min(na, nb), r % 4 < 2), nt=True,
+                      mech="majorizes:unequal-lengths-differs-from-zero-padded-partial-sums", detail={"a": u, "b": v, "want": want5, "first_violated_partial_sum": first_bad})
     # matrix arguments: singular values
     m1 = gen.rc(rng, n, n)
     got4 = ctx.call(majorizes, m1, 0.5 * m1)
